@@ -2,6 +2,7 @@
 Theorems: coq/Properties/C07.v over coq/Model/Logix.v.  Tie: correspondence (props/logix_common.py);
 oracle: the same members as one bundle and one by one on two identically configured simulators."""
 from props import logix_common as L
+import struct
 
 
 def gen(ctx):
@@ -150,8 +151,47 @@ def gen_std(ctx):
     return cases
 
 
+def session_level(ctx):
+    """Through the whole simulator session (enip_srv_tcp -> UCMM -> Connection Manager dispatch -> Message Router): the members of a
+    bundle sent as one SendRRData frame, against the same requests sent one SendRRData frame each.  -> number of comparisons"""
+    from props import c06, enip_common as E
+    rng = ctx.rng
+    n = 0
+    for i in range(60 if ctx.thorough else 14):
+        reqs = []
+        while len(reqs) < rng.randrange(2, 6):
+            r = c06.gen_cip(rng)
+            if r[0] != 'multi' and not c06.noobj(r) and not (r[0] == 'readf' and len(reqs) == 0 and False):
+                reqs.append(r)
+        if i % 3 == 0:
+            reqs.insert(rng.randrange(len(reqs) + 1), ('read', ('sym', rng.choice(['nosuch', 'Tx']), rng.choice([None, 3, 0])), 1))
+        env = lambda k: (0x1234, struct.pack('<Q', k), 0)
+        sb = [(('register',),) + env(0), (('send', None, ('multi', reqs)),) + env(1)]
+        ss = [(('register',),) + env(0)] + [(('send', None, r),) + env(k + 1) for k, r in enumerate(reqs)]
+        rb, eb, ib = c06.run_impl(None, [c06.frame_of(*x) for x in sb], whole=True)
+        rs, es, is_ = c06.run_impl(None, [c06.frame_of(*x) for x in ss], whole=True)
+        w = dict(requests=[L.describe_req(r) for r in reqs], bundled_replies=[x.hex() for x in rb], single_replies=[x.hex() for x in rs])
+        n += 1
+        pb = c06.parse_reply(rb[1]) if len(rb) == 2 else None
+        cip = E.unwrap_send_data(pb[5]) if pb and pb[2] == 0 else None
+        parts = L.split_bundle(cip) if cip else None
+        if parts is None:
+            ctx.violation(w, 'the bundle sent on a session is not answered by one well-formed bundle reply'); break
+        singles = []
+        for x in rs[1:]:
+            p = c06.parse_reply(x)
+            singles.append(E.unwrap_send_data(p[5]) if p and p[2] == 0 else None)
+        if len(singles) != len(reqs) or any(a is None or bytes(a) != bytes(b) for a, b in zip(singles, parts[0])) or ib != is_:
+            k = next((j for j, (a, b) in enumerate(zip(singles, parts[0])) if a is None or bytes(a) != bytes(b)), min(len(singles), len(parts[0])))
+            ctx.violation(dict(w, at_request=k, tags_equal=ib == is_),
+                          'on a simulator session, request #%d sent alone is answered differently from the same request inside a bundle' % k); break
+    return n
+
+
 def run(ctx):
     ctx.prove()
+    import struct
+    ctx.coverage['bundle_vs_single_frames_on_a_simulator_session'] = session_level(ctx)
     nstd = 0
     for c in gen_std(ctx):
         nstd += 1
@@ -160,6 +200,25 @@ def run(ctx):
             ctx.violation(dict(case=L.describe_case(c), at_request=res[0]), res[1])
             break
     ctx.coverage['oracle_only_bundles_with_standard_objects'] = nstd
+    # the same equality at the logging levels the simulator is run with (-v, -vv, -vvv: what is logged must not change what is answered)
+    import logging
+    nlog = 0
+    for lv, c in zip([logging.DETAIL, logging.INFO, logging.DEBUG] * 2, gen_std(ctx)):
+        saved = []
+        for name in ('enip.dev', 'enip.lgx', 'enip.srv', 'enip.cli'):
+            lg = logging.getLogger(name)
+            saved.append((lg, lg.level, lg.propagate, list(lg.handlers)))
+            lg.setLevel(lv); lg.propagate = False; lg.handlers = [logging.NullHandler()]
+        try:
+            res = bundle_vs_single(c)
+        finally:
+            for lg, level, prop, hs in saved:
+                lg.setLevel(level); lg.propagate = prop; lg.handlers = hs
+        nlog += 1
+        if res is not None:
+            ctx.violation(dict(case=L.describe_case(c), at_request=res[0], logging_level=logging.getLevelName(lv)), res[1] + ' (with logging enabled)')
+            break
+    ctx.coverage['bundles_with_logging_enabled'] = nlog
     ncli = 0
     from props import enip_common as E
     E.quiet()
